@@ -92,8 +92,30 @@ def _jpeg(c, name):
     return SP.Jpeg(_d(c, name))
 
 
+def _while_var(rel, qual, ordinal=0):
+    """Name of the offset variable of the `ordinal`-th while loop: the name that occurs in the loop test and is assigned in the body
+    (found on the real AST, so renaming the local does not matter)."""
+    fn = loader.module(rel).functions.get(qual)
+    if fn is None:
+        return None
+    loops = sorted([n for n in ast.walk(fn) if isinstance(n, (ast.For, ast.While))], key=lambda n: (n.lineno, n.col_offset))
+    if ordinal >= len(loops) or not isinstance(loops[ordinal], ast.While):
+        return None
+    lp = loops[ordinal]
+    test = {n.id for n in ast.walk(lp.test) if isinstance(n, ast.Name)}
+    assigned = {n.id for b in lp.body for n in ast.walk(b) if isinstance(n, ast.Name) and isinstance(n.ctx, ast.Store)}
+    both = sorted(test & assigned)
+    return both[0] if len(both) == 1 else None
+
+
+def _param_name(rel, qual, k=0):
+    fn = loader.module(rel).functions.get(qual)
+    return fn.args.args[k].arg if fn is not None and len(fn.args.args) > k else None
+
+
 def sniffer_contract(rel, fill=True):
     """docx / pptx / xlsx `_get_image_pixel_dimensions(image_data) -> (w | None, h | None)`."""
+    ivar = _while_var(rel, "_get_image_pixel_dimensions") or "i"
     def jp(c):
         return SP.Jpeg(_d(c, "image_data"), fill=fill)
 
@@ -123,7 +145,7 @@ def sniffer_contract(rel, fill=True):
 
     def inv(lc):
         j = SP.Jpeg(SP.Data(*data_of(lc.entry.lookup("image_data"))), fill=fill)
-        i = ops.int_term(lc["i"])
+        i = ops.int_term(lc[ivar])
         two = z3.IntVal(2)
         lc.st.assume(j.defn(i))          # definitional instance of the chain at the current offset (spec function, not a claim)
         return z3.And(i >= 2, z3.Or(j.KIND(two) == SP.OTHER, j.same(i, two)))
@@ -141,6 +163,8 @@ def sniffer_contract(rel, fill=True):
 
 
 def image_utils_contracts():
+    ovar = _while_var(IMGU, "get_jpeg_dimensions") or "offset"
+
     def jp(c, name="data"):
         return SP.Jpeg(_d(c, name))
 
@@ -150,7 +174,7 @@ def image_utils_contracts():
 
     def inv(lc):
         j = SP.Jpeg(SP.Data(*data_of(lc.entry.lookup("data"))))
-        o = ops.int_term(lc["offset"])
+        o = ops.int_term(lc[ovar])
         two = z3.IntVal(2)
         lc.st.assume(z3.And(j.defn(o), j.tail_at(o)))   # definitional instance + proved tail lemma at the current offset
         return z3.And(o >= 2, z3.Or(j.KIND(two) == SP.OTHER, j.same(o, two)))
@@ -217,8 +241,11 @@ def resolver_contract():
     """zip_utils.resolve_part_name(base_dir, target) == RESOLVE(base_dir, target), for all strings (unbounded)."""
     def inv(lc):
         ex = lc.ex
-        parts = ex.zterm(lc.st, lc["parts"])
-        resolved = ex.zterm(lc.st, lc["resolved"])
+        # roles, not names: the segments iterated (loop iterable) and the one other list of strings of the frame (the stack)
+        parts = ex.zterm(lc.st, lc.seq) if lc.seq is not None else None
+        others = [v for k, v in lc.st.frame.env.items() if isinstance(v, VRef) and not (isinstance(lc.seq, VRef) and v.ref == lc.seq.ref)
+                  and lc.st.obj(v.ref).kind in ("zlist", "list") and ex.zterm(lc.st, v) is not None]
+        resolved = ex.zterm(lc.st, others[0]) if len(others) == 1 else None
         if parts is None or resolved is None:
             return z3.BoolVal(False)
         lc.st.assume(SP.fold_defn(parts, lc.i))      # definition of the spec fold at the current prefix
@@ -393,11 +420,20 @@ def _append_of(ctor, numbered, num_kw):
     return pred
 
 
+def _counter_of(ck, ctor, num_kw):
+    """The counter by its role: the one name used as `num_kw=` of the image constructor."""
+    from contracts import c14_sites as SI
+    names = {SI.kwv(c, num_kw).id for c in SI.ctor_calls(ck.fn, ctor) if isinstance(SI.kwv(c, num_kw), ast.Name)}
+    return sorted(names)[0] if len(names) == 1 else None
+
+
 def _common(ck, ctor, num_kw, payload_kw, reads, counter, sniff_total=True):
     """Obligations shared by the extractors that build the image in the loop that counts it."""
     from contracts import c14_sites as SI
     from contracts.c14_flow import method_calls
     sites = SI.ctor_calls(ck.fn, ctor)
+    counter = _counter_of(ck, ctor, num_kw) or counter
+    ck.counter = counter
     if sniff_total:
         ck.total |= {"_get_image_pixel_dimensions", "_get_content_type", "guess_content_type", ctor}
     numbered = [c for c in sites if SI.kwv(c, num_kw) is not None]
@@ -579,7 +615,7 @@ def image_sites(repo, tier):
     ck = mk(DOCX, "_extract_images_from_context")
     if ck:
         sites = _common(ck, "DocxImage", "image_index", "data", ("get_image_data",), "image_counter")
-        z = ck.starts_at_zero_once("image_counter")
+        z = ck.starts_at_zero_once(ck.counter)
         if z is not None and not isinstance(z, bool):
             pu = ck.called_once_per_document()
             ck.add("numbering", "counter-starts-at-zero-once-per-document", not pu, f"called per unit from {pu}")
@@ -592,7 +628,7 @@ def image_sites(repo, tier):
     ck = mk(PPTX, "_process_slide_from_context")
     if ck:
         sites = _common(ck, "PptxImage", "image_index", "blob", ("get_image_data",), "image_counter")
-        z = ck.starts_at_zero_once("image_counter")
+        z = ck.starts_at_zero_once(ck.counter)
         if z is not None and not isinstance(z, bool):
             pu = ck.called_once_per_document()
             ck.add("numbering", "counter-starts-at-zero-once-per-document", not pu,
@@ -609,7 +645,7 @@ def image_sites(repo, tier):
     ck = mk(XLSX, "_extract_images_from_zip")
     if ck:
         sites = _common(ck, "XlsxImage", "image_index", "data", ("read_bytes",), "image_counter")
-        z = ck.starts_at_zero_once("image_counter")
+        z = ck.starts_at_zero_once(ck.counter)
         if z is not None and not isinstance(z, bool):
             pu = ck.called_once_per_document()
             ck.add("numbering", "counter-starts-at-zero-once-per-document", not pu, f"called per unit from {pu}")
@@ -625,7 +661,7 @@ def image_sites(repo, tier):
             continue
         sites = _common(ck, "OpenDocumentImage", "image_index", "data", ("read_bytes",), "image_counter")
         if not thread:
-            z = ck.starts_at_zero_once("image_counter")
+            z = ck.starts_at_zero_once(ck.counter)
             if z is not None and not isinstance(z, bool):
                 pu = ck.called_once_per_document()
                 ck.add("numbering", "counter-starts-at-zero-once-per-document", not pu, f"called per unit from {pu}")
@@ -656,7 +692,7 @@ def image_sites(repo, tier):
     ck = mk(EPUB, "_extract_images")
     if ck:
         sites = _common(ck, "EpubImage", "image_index", "data", ("read_bytes",), "image_counter")
-        z = ck.starts_at_zero_once("image_counter")
+        z = ck.starts_at_zero_once(ck.counter)
         if z is not None and not isinstance(z, bool):
             pu = ck.called_once_per_document()
             ck.add("numbering", "counter-starts-at-zero-once-per-document", not pu, f"called per unit from {pu}")
